@@ -170,6 +170,7 @@ Apply(m_, e, B, useLen) ==
                         ELSE IF ~hasNext THEN "PartPhantom"
                         ELSE IF (e.res = "multi") # p.multi THEN "PartKind"
                         ELSE IF e.hdrs # p.hdrs THEN "ReaderHeaders"
+                        ELSE IF e.err # "" THEN "ReaderError"
                         ELSE IF m_.written /\ ~p.multi
                         THEN FirstBad(<<NameClause(Get(w, "name", NoName), e.name, "NameRoundTrip"),
                                         NameClause(Get(w, "filename", NoName), e.filename, "FilenameRoundTrip")>>)
@@ -187,9 +188,10 @@ Apply(m_, e, B, useLen) ==
                 T == Trust(m_) /\ (lvl = 1 \/ m_.inInner) /\ CurIdx(m_, lvl) >= 1
                 seterr == e.err # ""
                 emp == Get(e, "empties", 0)
-                \* read_chunk(size) returns at most size bytes; a base64 part may add the carried partial
-                \* quartet (< 4 bytes) to a chunk of at least the boundary window (permitted alternative)
-                allow == IF Get(e, "b64", FALSE) THEN Max(Get(m_.sess, "chunk", 1000000000), Len(B) + 4) + 3
+                \* read_chunk(size) returns at most size bytes; a transfer-encoded part (base64, quoted-
+                \* printable) may add the carried partial group (< 4 bytes) to a chunk of at least the
+                \* boundary window (permitted alternative)
+                allow == IF Get(e, "carry", FALSE) THEN Max(Get(m_.sess, "chunk", 1000000000), Len(B) + 4) + 3
                          ELSE Get(m_.sess, "chunk", 1000000000)
                 chunkc == IF Get(e, "maxchunk", 0) > allow THEN "ChunkTooLarge" ELSE ""
             IN IF ~T THEN [m |-> [m_ EXCEPT !.dead = m_.dead \/ seterr],
